@@ -59,3 +59,20 @@ func VerifFilter246(px [8]uint8, level, ilevel, hlevel int, fourNotSix bool) [8]
 	copy(out[:], buf)
 	return out
 }
+
+// VerifDequant: the per-segment dequantisation factors of the reference decoder for quantiser index q
+// and the five frame-level deltas (the body of parseQuant's loop, with its tables and its clip).
+func VerifDequant(q, dqy1DC, dqy2DC, dqy2AC, dquvDC, dquvAC int32) [6]uint16 {
+	const dqy1AC = 0
+	var r [6]uint16
+	r[0] = dequantTableDC[clip(q+dqy1DC, 0, 127)]
+	r[1] = dequantTableAC[clip(q+dqy1AC, 0, 127)]
+	r[2] = dequantTableDC[clip(q+dqy2DC, 0, 127)] * 2
+	r[3] = dequantTableAC[clip(q+dqy2AC, 0, 127)] * 155 / 100
+	if r[3] < 8 {
+		r[3] = 8
+	}
+	r[4] = dequantTableDC[clip(q+dquvDC, 0, 117)]
+	r[5] = dequantTableAC[clip(q+dquvAC, 0, 127)]
+	return r
+}
